@@ -33,6 +33,15 @@ Rules ==
      [r |-> "break-outside-loop", ss |-> <<SIf(<<EBool(TRUE)>>, << <<SBrk>> >>, <<>>)>>, sites |-> Sites \ LoopSites],
      [r |-> "unreachable-after-break", ss |-> <<SBrk, Pr(<<Num(8)>>)>>, sites |-> LoopSites],
      [r |-> "unreachable-after-return", ss |-> <<SRet(<<>>), Pr(<<Num(8)>>)>>, sites |-> {"proc", "handler"}],
+     [r |-> "unreachable-after-return-comment", ss |-> <<SRet(<<>>), Raw(<<"// a comment">>), Pr(<<Num(8)>>)>>, sites |-> {"proc", "handler"}],
+     [r |-> "unreachable-after-return-blank", ss |-> <<SRet(<<>>), Raw(<<"">>), Raw(<<"">>), Pr(<<Num(8)>>)>>, sites |-> {"proc", "handler"}],
+     [r |-> "unreachable-after-break-comment", ss |-> <<SBrk, Raw(<<"// a comment">>), Raw(<<"">>), Pr(<<Num(8)>>)>>, sites |-> LoopSites],
+     [r |-> "unreachable-after-if-else", ss |-> <<SIf(<<EBool(TRUE)>>, << <<SRet(<<>>)>> >>, << <<SRet(<<>>)>> >>), Raw(<<"// c">>), Pr(<<Num(8)>>)>>, sites |-> {"proc", "handler"}],
+     [r |-> "type-operand-empty-array", ss |-> <<Raw(<<"e1 := 1 + []">>), Raw(<<"print e1">>)>>, sites |-> Sites],
+     [r |-> "type-operand-empty-array-left", ss |-> <<Raw(<<"e1 := [] + \"s\"">>), Raw(<<"print e1">>)>>, sites |-> Sites],
+     [r |-> "type-operand-empty-map", ss |-> <<Raw(<<"e1 := true and {}">>), Raw(<<"print e1">>)>>, sites |-> Sites],
+     [r |-> "type-operand-empties", ss |-> <<Raw(<<"print []=={}">>)>>, sites |-> Sites],
+     [r |-> "type-operand-nested-empty", ss |-> <<Raw(<<"e1 := [[]] + [1]">>), Raw(<<"print e1">>)>>, sites |-> Sites],
      [r |-> "return-value-from-procedure", ss |-> <<SIf(<<EBool(TRUE)>>, << <<SRet(<<Num(1)>>)>> >>, <<>>)>>, sites |-> {"proc", "handler"}],
      [r |-> "return-wrong-type", ss |-> <<SIf(<<EBool(TRUE)>>, << <<SRet(<<EStr(<<115>>)>>)>> >>, <<>>)>>, sites |-> {"func"}],
      [r |-> "return-missing-value", ss |-> <<SIf(<<EBool(TRUE)>>, << <<SRet(<<>>)>> >>, <<>>)>>, sites |-> {"func"}],
